@@ -333,8 +333,12 @@ class ParseContext:
       allowlist, denylist = original.allowlist, original.denylist
     elif inspect.isfunction(fn_or_cls) and inspect.isclass(path_attrs[-1]):  # pytype: disable=not-supported-yet
       parent_class = _inverse_lookup(path_attrs[-1])
-      if parent_class is not None:
-        module = parent_class.selector
+      if parent_class is None:
+        # Register the class first: the method is named after the selector the
+        # class actually gets (which may differ from the one its import alias
+        # suggests, if that is already taken by another object).
+        parent_class = self._register(attr_names[:-1], attr_values[:-1])
+      module = parent_class.selector
     _make_configurable(
         fn_or_cls,
         name=fn_or_cls_name,
